@@ -365,3 +365,293 @@ Proof.
 Qed.
 Lemma strip_simulates sql : has_tcl_paren (sql_lex sql) = false -> sim (strip_quoted sql) (sql_lex sql).
 Proof. apply (strip_sim (length sql)). lia. Qed.
+
+(* ================================================================ consequences *)
+(* the white space of the text is SQLite's: every character Python regards as white space starts an SQLite
+   white-space token (TAB LF FF CR SPACE) *)
+Definition plain_ws (sql : str) : Prop := forall c, In c sql -> py_space c = true -> sq_space_start c = true.
+Definition plain_toks (ts : list tok) : Prop :=
+  forall t c, In t ts -> In c (tok_text t) -> py_space c = true -> sq_space_start c = true.
+
+Lemma plain_ws_toks sql : plain_ws sql -> plain_toks (sql_lex sql).
+Proof.
+  intros H t c Ht Hc. apply H. rewrite <- (sql_lex_lossless sql). apply in_flat_map. eauto.
+Qed.
+Lemma plain_toks_tail t ts : plain_toks (t :: ts) -> plain_toks ts.
+Proof. intros H t' c Ht. apply H. right. exact Ht. Qed.
+
+Lemma tail_ok_app a b : tail_ok (a ++ b) -> tail_ok a /\ tail_ok b.
+Proof. unfold tail_ok. intro H. split; intros c Hc; apply H, in_or_app; auto. Qed.
+
+(* Lemma B: after the first semicolon of the stripped text only semicolons and white space => the tokens there are quiet *)
+Lemma sim_tail_quiet s ts : sim s ts -> tail_ok s -> plain_toks ts -> forallb quiet ts = true.
+Proof.
+  induction 1 as [|t s ts Hl Hw Hs IH|t k s ts Hd Hs IH|t s He]; intros Ht Hp.
+  - reflexivity.
+  - apply tail_ok_app in Ht as [Ht1 Ht2]. cbn [forallb]. rewrite (IH Ht2 (plain_toks_tail _ _ Hp)), andb_true_r.
+    assert (forall c, In c (tok_text t) -> sq_space_start c = true \/ c = 59) as Hc.
+    { intros c Hc. destruct (Ht1 c Hc) as [->|Hsp]; [auto|]. left. apply (Hp t c); [left; reflexivity|exact Hc|exact Hsp]. }
+    destruct t as [w|w cl|q w|w| |w|w p|c|w]; cbn [live_ok] in Hl; try discriminate; try reflexivity; exfalso.
+    + (* word *) destruct w as [|c w]; [discriminate|]. cbn [forallb] in Hl. apply andb_true_iff in Hl as [Hi _].
+      destruct (idchar_facts c Hi) as (_ & H59 & Hss). destruct (Hc c (or_introl eq_refl)) as [H| ->]; [congruence|discriminate].
+    + (* variable *) destruct p; [discriminate|]. destruct w as [|c w]; [discriminate|]. apply andb_true_iff in Hl as [Hv _].
+      destruct (var_start_facts c Hv) as (_ & _ & _ & H59 & Hss).
+      destruct (Hc c (or_introl eq_refl)) as [H| ->]; [congruence|discriminate].
+    + (* other *) apply andb_true_iff in Hl as [Hl _]. apply andb_true_iff in Hl as [Hl _]. apply andb_true_iff in Hl as [H59 Hss].
+      apply negb_true_iff in H59, Hss. destruct (Hc c (or_introl eq_refl)) as [H| ->]; [congruence|discriminate].
+  - cbn [forallb]. rewrite IH; [| |exact (plain_toks_tail _ _ Hp)].
+    + rewrite andb_true_r. destruct t as [w|w [|]|q w|w| |w|w p|c|w]; cbn [dead_ok] in Hd; try discriminate; reflexivity.
+    + intros c Hc. apply Ht. right. apply in_or_app. right. exact Hc.
+  - cbn [forallb]. rewrite andb_true_r. destruct t as [w|w [|]|q w|w| |w|w p|c|w]; cbn [end_ok] in He; try discriminate; reflexivity.
+Qed.
+
+Lemma after_first_app c w s : ~ In c w -> after_first c (w ++ s) = after_first c s.
+Proof.
+  induction w as [|x w IH]; cbn [app after_first]; [reflexivity|].
+  intro H. destruct (N.eqb_spec x c) as [->|_]; [exfalso; apply H; left; reflexivity|].
+  apply IH. intro Hc. apply H. right. exact Hc.
+Qed.
+
+Lemma live_no_semi t : live_ok t = true -> is_semi t = false -> ~ In 59 (tok_text t).
+Proof.
+  destruct t as [w|w cl|q w|w| |w|w p|c|w]; cbn [live_ok is_semi tok_text]; try discriminate; intros Hl _ Hin.
+  - rewrite forallb_forall in Hl. specialize (Hl 59 Hin). vm_compute in Hl. discriminate.
+  - destruct w as [|c w]; [discriminate|]. rewrite forallb_forall in Hl. specialize (Hl 59 Hin). vm_compute in Hl. discriminate.
+  - destruct p; [discriminate|]. destruct w as [|c w]; [discriminate|]. apply andb_true_iff in Hl as [Hv Hw].
+    destruct Hin as [->|Hin]; [vm_compute in Hv; discriminate|].
+    rewrite forallb_forall in Hw. specialize (Hw 59 Hin). vm_compute in Hw. discriminate.
+  - destruct Hin as [->|[]]. vm_compute in Hl. discriminate.
+Qed.
+
+Lemma repeat_no (c : N) k (x : N) : x <> c -> ~ In x (repeat c k).
+Proof. intros Hn Hin. apply repeat_spec in Hin. contradiction. Qed.
+
+(* Lemma C *)
+Lemma sim_after_semi s ts : sim s ts -> shape s -> plain_toks ts ->
+  match after_semi ts with None => True | Some post => forallb quiet post = true end.
+Proof.
+  induction 1 as [|t s ts Hl Hw Hs IH|t k s ts Hd Hs IH|t s He]; intros Hsh Hp.
+  - exact I.
+  - cbn [after_semi]. destruct (is_semi t) eqn:S.
+    + destruct t; try discriminate. cbn [tok_text app] in Hsh. unfold shape in Hsh. cbn [after_first N.eqb Pos.eqb] in Hsh.
+      eapply sim_tail_quiet; [exact Hs|exact Hsh|exact (plain_toks_tail _ _ Hp)].
+    + apply IH; [|exact (plain_toks_tail _ _ Hp)]. unfold shape in *.
+      rewrite after_first_app in Hsh by (apply live_no_semi; assumption). exact Hsh.
+  - cbn [after_semi].
+    assert (is_semi t = false) as -> by (destruct t as [w|w [|]|q w|w| |w|w p|c|w]; cbn [dead_ok] in Hd; try discriminate; reflexivity).
+    apply IH; [|exact (plain_toks_tail _ _ Hp)]. unfold shape in *.
+    change (32 :: repeat 32 k ++ s) with ((32 :: repeat 32 k) ++ s) in Hsh.
+    rewrite after_first_app in Hsh; [exact Hsh|].
+    intros [H|H]; [discriminate|]. revert H. apply repeat_no. discriminate.
+  - cbn [after_semi].
+    assert (is_semi t = false) as -> by (destruct t as [w|w [|]|q w|w| |w|w p|c|w]; cbn [end_ok] in He; try discriminate; reflexivity).
+    exact I.
+Qed.
+
+(* ---------------------------------------------------------------- the leading keyword *)
+Lemma skip_blankish w s x : forallb (fun c => negb (kw_start c)) w = true ->
+  match_kw (skip_ws (w ++ s)) = Some x -> match_kw (skip_ws s) = Some x.
+Proof.
+  induction w as [|c w IH]; cbn [forallb app]; [auto|].
+  intro H. apply andb_true_iff in H as [Hc Hw]. apply negb_true_iff in Hc.
+  unfold skip_ws. cbn [lstrip_p]. destruct (py_space c).
+  - apply IH, Hw.
+  - cbn [match_kw]. rewrite Hc. discriminate.
+Qed.
+
+Lemma span_p_app_stop p w s : match s with [] => True | h :: _ => p h = false end ->
+  fst (span_p p (w ++ s)) = fst (span_p p w).
+Proof.
+  intro Hs. induction w as [|c w IH]; cbn [app span_p].
+  - destruct s as [|h s']; [reflexivity|]. cbn [span_p]. rewrite Hs. reflexivity.
+  - destruct (p c); [|reflexivity]. destruct (span_p p (w ++ s)) as [a b]. destruct (span_p p w) as [a' b'].
+    cbn [fst] in *. congruence.
+Qed.
+
+Definition leading (P : str -> Prop) (ts : list tok) : Prop :=
+  match first_live ts with
+  | Some (TWord w) => P (fst (span_p re_word w))
+  | Some (TIllegal _) | None => True
+  | Some _ => False
+  end.
+
+Lemma sim_leading s ts : sim s ts -> plain_toks ts -> forall kw rest,
+  match_kw (skip_ws s) = Some (kw, rest) -> leading (fun k => kw = k) ts.
+Proof.
+  unfold leading.
+  induction 1 as [|t s ts Hl Hw Hs IH|t k s ts Hd Hs IH|t s He]; intros Hp kw rest Hm.
+  - discriminate.
+  - assert (forall c, In c (tok_text t) -> py_space c = true -> sq_space_start c = true) as Hc
+      by (intros c Hc; apply (Hp t c); [left; reflexivity|exact Hc]).
+    destruct t as [w|w cl|q w|w| |w|w p|c|w]; cbn [live_ok] in Hl; try discriminate; cbn [first_live skippable tok_text] in *.
+    + (* white space *) apply (IH (plain_toks_tail _ _ Hp) kw rest). eapply skip_blankish; [|exact Hm].
+      eapply forallb_imp; [|exact Hl]. intros x Hx. unfold sp_ch in Hx. apply orb_true_iff in Hx as [Hx|Hx].
+      * destruct (sq_space_facts x Hx) as (_ & _ & -> & _). reflexivity.
+      * apply N.eqb_eq in Hx. subst x. reflexivity.
+    (* the semicolon case is closed by computation: it is neither white space nor the start of a keyword *)
+    + (* word *) destruct w as [|c w]; [discriminate|]. cbn [forallb] in Hl. apply andb_true_iff in Hl as [Hi _].
+      destruct (idchar_facts c Hi) as (_ & _ & Hss).
+      assert (py_space c = false) as Hsp.
+      { destruct (py_space c) eqn:E; [|reflexivity]. rewrite (Hc c (or_introl eq_refl) E) in Hss. discriminate. }
+      unfold skip_ws in Hm. cbn [app lstrip_p] in Hm. rewrite Hsp in Hm. cbn [match_kw] in Hm.
+      destruct (kw_start c) eqn:K; [|discriminate].
+      destruct (kw_start_facts c K) as (Hrw & _).
+      pose proof (span_p_app_stop re_word w s) as Hsp2.
+      destruct (span_p re_word (w ++ s)) as [a b]. inversion Hm; subst.
+      cbn [span_p]. rewrite Hrw. destruct (span_p re_word w) as [a' b']. cbn [fst] in *.
+      f_equal. apply Hsp2. exact Hw.
+    + (* variable *) destruct p; [discriminate|]. destruct w as [|c w]; [discriminate|]. apply andb_true_iff in Hl as [Hv _].
+      destruct (var_start_facts c Hv) as (_ & Hsp & K & _).
+      unfold skip_ws in Hm. cbn [app lstrip_p] in Hm. rewrite Hsp in Hm. cbn [match_kw] in Hm. rewrite K in Hm. discriminate.
+    + (* other *) apply andb_true_iff in Hl as [Hl _]. apply andb_true_iff in Hl as [Hl Hi]. apply andb_true_iff in Hl as [_ Hss].
+      apply negb_true_iff in Hi, Hss.
+      assert (py_space c = false) as Hsp.
+      { destruct (py_space c) eqn:E; [|reflexivity]. rewrite (Hc c (or_introl eq_refl) E) in Hss. discriminate. }
+      unfold skip_ws in Hm. cbn [app lstrip_p] in Hm. rewrite Hsp in Hm. cbn [match_kw] in Hm.
+      destruct (kw_start c) eqn:K; [|discriminate]. destruct (kw_start_facts c K) as (_ & Hi' & _). congruence.
+  - assert (skippable t = true) as Hsk
+      by (destruct t as [w|w [|]|q w|w| |w|w p|c|w]; cbn [dead_ok] in Hd; try discriminate; reflexivity).
+    cbn [first_live]. rewrite Hsk. apply (IH (plain_toks_tail _ _ Hp) kw rest).
+    change (32 :: repeat 32 k ++ s) with ((32 :: repeat 32 k) ++ s) in Hm.
+    eapply skip_blankish; [|exact Hm]. cbn [forallb]. apply andb_true_iff. split; [reflexivity|].
+    apply forallb_forall. intros x Hx. apply repeat_spec in Hx. subst x. reflexivity.
+  - destruct t as [w|w [|]|q w|w| |w|w p|c|w]; cbn [end_ok] in He; try discriminate; exact I.
+Qed.
+
+(* SQLite's keyword lookup is ASCII-only: for a word of ASCII letters, digits and "_" Python's \w-prefix is the
+   whole word and str.upper is the ASCII upper-casing *)
+Lemma ascii_word_facts c : ascii_alnum c || N.eqb c 95 = true -> re_word c = true /\ py_upper_ch c = [ascii_upper_ch c].
+Proof.
+  intro H.
+  assert (c < 128) as Hc.
+  { unfold ascii_alnum in H. repeat (apply orb_true_iff in H; destruct H as [H|H]);
+      try (apply andb_true_iff in H as [_ H]; apply N.leb_le in H; lia). apply N.eqb_eq in H. lia. }
+  pose proof (small_cases (fun c => implb (ascii_alnum c || N.eqb c 95)
+     (re_word c && match py_upper_ch c with [x] => N.eqb x (ascii_upper_ch c) | _ => false end))
+     ltac:(vm_compute; reflexivity) c Hc) as K. cbv beta in K. rewrite H in K. cbn [implb] in K.
+  apply andb_true_iff in K as [K1 K2]. split; [exact K1|].
+  destruct (py_upper_ch c) as [|x [|y l]]; try discriminate. apply N.eqb_eq in K2. congruence.
+Qed.
+Lemma ascii_word_kw w : ascii_word w = true -> fst (span_p re_word w) = w /\ py_upper w = ascii_upper w.
+Proof.
+  induction w as [|c w IH]; cbn [ascii_word forallb]; [intros _; split; reflexivity|].
+  intro H. apply andb_true_iff in H as [Hc Hw]. destruct (IH Hw) as [I1 I2].
+  destruct (ascii_word_facts c Hc) as [R U]. split.
+  - cbn [span_p]. rewrite R. destruct (span_p re_word w) as [a b]. cbn [fst] in *. congruence.
+  - unfold py_upper in *. cbn [flat_map]. rewrite U, I2. reflexivity.
+Qed.
+
+Section Dialect.
+  Variable ero ewr : list str.
+
+  (* (2) the leading keyword *)
+  Lemma leading_keyword sql :
+    plain_ws sql -> has_tcl_paren (sql_lex sql) = false ->
+    is_readonly_sql ero ewr sql = Some true -> leading (fun k => ro_word ero (py_upper k)) (sql_lex sql).
+  Proof.
+    intros Hp Ht Hr. apply is_readonly_true in Hr as [_ Hc].
+    apply classify_true_kw in Hc as (kw & rest & Hm & Hro).
+    pose proof (sim_leading _ _ (strip_simulates sql Ht) (plain_ws_toks _ Hp) kw rest Hm) as H.
+    unfold leading in *. destruct (first_live (sql_lex sql)) as [[w|w cl|q w|w| |w|w p|c|w]|]; auto. subst kw. exact Hro.
+  Qed.
+
+  (* in SQLite's own terms: if the leading word can be a keyword at all, its upper-case form is read-only *)
+  Lemma leading_keyword_ascii sql w :
+    plain_ws sql -> has_tcl_paren (sql_lex sql) = false ->
+    is_readonly_sql ero ewr sql = Some true ->
+    first_live (sql_lex sql) = Some (TWord w) -> ascii_word w = true -> ro_word ero (ascii_upper w).
+  Proof.
+    intros Hp Ht Hr Hf Ha. pose proof (leading_keyword sql Hp Ht Hr) as H. unfold leading in H. rewrite Hf in H.
+    destruct (ascii_word_kw w Ha) as [-> <-] in H. exact H.
+  Qed.
+
+  (* (1) at most one live statement *)
+  Lemma single_statement sql :
+    plain_ws sql -> has_tcl_paren (sql_lex sql) = false ->
+    is_readonly_sql ero ewr sql = Some true -> (live_statements (sql_lex sql) <= 1)%nat.
+  Proof.
+    intros Hp Ht Hr. apply is_readonly_true in Hr as [Hm _].
+    apply live_statements_le1. eapply sim_after_semi.
+    - apply strip_simulates, Ht.
+    - apply multi_false_shape, Hm.
+    - apply plain_ws_toks, Hp.
+  Qed.
+
+  (* (3) the contrapositives: what the reference tokenizer sees as several statements, or as a text that does
+     not begin with a read-only keyword, is never classified read-only *)
+  Lemma several_statements_not_readonly sql :
+    plain_ws sql -> has_tcl_paren (sql_lex sql) = false ->
+    (2 <= live_statements (sql_lex sql))%nat -> is_readonly_sql ero ewr sql <> Some true.
+  Proof. intros Hp Ht H2 Hr. pose proof (single_statement sql Hp Ht Hr). lia. Qed.
+
+  Definition unrecognised_first (t : tok) : Prop :=
+    match t with
+    | TWord w => ~ ro_word ero (py_upper (fst (span_p re_word w)))
+    | TIllegal _ => False
+    | _ => True          (* a semicolon, a variable, an operator or any other character *)
+    end.
+  Lemma unrecognised_first_not_readonly sql t :
+    plain_ws sql -> has_tcl_paren (sql_lex sql) = false ->
+    first_live (sql_lex sql) = Some t -> unrecognised_first t -> is_readonly_sql ero ewr sql <> Some true.
+  Proof.
+    intros Hp Ht Hf Hu Hr. pose proof (leading_keyword sql Hp Ht Hr) as H. unfold leading in H. rewrite Hf in H.
+    destruct t; cbn [unrecognised_first] in Hu; auto.
+  Qed.
+End Dialect.
+
+(* ================================================================ the sqlite3 handler *)
+Definition plain_wsb (sql : str) : bool := forallb (fun c => implb (py_space c) (sq_space_start c)) sql.
+Lemma plain_wsb_spec sql : plain_wsb sql = true -> plain_ws sql.
+Proof.
+  unfold plain_wsb, plain_ws. rewrite forallb_forall. intros H c Hc Hs. specialize (H c Hc). rewrite Hs in H. exact H.
+Qed.
+
+(* (4) an allowed command line without the -help/-version/-readonly/-safe shortcuts has SQL arguments, and each
+   of them separately is read-only: hence (1) and (2) hold for each *)
+Lemma sqlite3_allow_each tokens :
+  sqlite3_shortcut tokens = None -> sqlite3_classify tokens = Allow ->
+  sqlite3_parts (tl tokens) false <> [] /\
+  forall part, In part (sqlite3_parts (tl tokens) false) ->
+    sqlite3_sql part = Some true /\
+    (plain_ws part -> has_tcl_paren (sql_lex part) = false ->
+       (live_statements (sql_lex part) <= 1)%nat /\ leading (fun k => ro_word [] (py_upper k)) (sql_lex part)).
+Proof.
+  intros Hs Ha. destruct (sqlite3_allow_parts tokens Hs Ha) as [Hne Hall]. split; [exact Hne|].
+  intros part Hin. rewrite Forall_forall in Hall. specialize (Hall part Hin). split; [exact Hall|].
+  intros Hp Ht. split; [eapply single_statement; eauto|eapply leading_keyword; eauto].
+Qed.
+
+(* one write argument is enough for "ask" *)
+Lemma sqlite3_one_write tokens part :
+  sqlite3_shortcut tokens = None -> In part (sqlite3_parts (tl tokens) false) -> sqlite3_sql part <> Some true ->
+  sqlite3_classify tokens = Ask.
+Proof.
+  intros Hs Hin Hn. destruct (sqlite3_classify tokens) eqn:E; try reflexivity.
+  - destruct (sqlite3_allow_parts tokens Hs E) as [_ Hall]. rewrite Forall_forall in Hall. specialize (Hall part Hin). contradiction.
+  - unfold sqlite3_classify in E. rewrite Hs in E. destruct (sqlite3_parts (tl tokens) false); [discriminate|].
+    destruct (is_true _); discriminate.
+Qed.
+
+(* ================================================================ witnesses (checked by computation) *)
+Lemma single_refuted_witness : exists sql,
+  plain_ws sql /\ is_readonly_sql [] SQLITE_WRITE sql = Some true /\ live_statements (sql_lex sql) = 2%nat.
+Proof.
+  exists $"SELECT $a('), 1; DELETE FROM t; --')". split; [apply plain_wsb_spec; vm_compute; reflexivity|].
+  split; vm_compute; reflexivity.
+Qed.
+Lemma single_ws_refuted_witness : exists sql,
+  has_tcl_paren (sql_lex sql) = false /\ is_readonly_sql [] SQLITE_WRITE sql = Some true /\ live_statements (sql_lex sql) = 2%nat.
+Proof. exists ($"SELECT 1;" ++ [160]). repeat split; vm_compute; reflexivity. Qed.
+Lemma nonblank_refuted_witness : exists sql,
+  plain_ws sql /\ has_tcl_paren (sql_lex sql) = false /\ is_readonly_sql [] SQLITE_WRITE sql = Some true /\
+  nonblank_statements (sql_lex sql) = 2%nat /\ live_statements (sql_lex sql) = 1%nat.
+Proof.
+  exists $"SELECT 1; 'a'". split; [apply plain_wsb_spec; vm_compute; reflexivity|].
+  repeat split; vm_compute; reflexivity.
+Qed.
+Lemma args_refuted_witness : exists tokens part,
+  sqlite3_classify tokens = Allow /\ In part (sqlite3_parts (tl tokens) false) /\ sqlite3_sql part = Some false.
+Proof.
+  exists [$"sqlite3"; $"-safe"; $"main.db"; $"DELETE FROM t"], $"DELETE FROM t".
+  split; [vm_compute; reflexivity|]. split; [vm_compute; left; reflexivity|vm_compute; reflexivity].
+Qed.
